@@ -125,6 +125,24 @@ def run(tier, seed, replay=None):
                    "target": {"version": "5.0.7", "fault_key": "f:%d" % (j % 3), "fault_text": texts[j % len(texts)]}}
             ents = [{"id": n + 1, "db": n % 2, "key": "f:%d" % n, "kind": "string", "n": 1, "elem": 6, "type": -1} for n in range(5)]
             cases.append({"id": 21000 + j, "cfg": cfg, "pre": [], "entries": ents})
+        # ... and an error reply in the MIDDLE of a pipelined batch of element commands (a quicklist goes RPUSH by RPUSH, a value above the
+        # big-key threshold field by field): the third RPUSH / second HSET of one key is refused
+        for j, (mode, pol, (fcmd, nth, fkey)) in enumerate([(m, p2, f) for m in ("sync", "restore") for p2 in ("none", "rewrite")
+                                                             for f in (("RPUSH", 3, "e:1"), ("HSET", 2, "e:2"))]):
+            cfg = {"mode": mode, "parallel": 2, "tdb": -1, "key_exists": pol, "target_replace": True, "sched": "random", "big_threshold": 30,
+                   "target": {"version": "5.0.7", "fault_key": fkey, "fault_cmd": fcmd, "fault_nth": nth, "fault_text": texts[j % len(texts)]}}
+            ents = [{"id": 1, "db": 0, "key": "e:0", "kind": "string", "n": 1, "elem": 6, "type": -1},
+                    {"id": 2, "db": 1, "key": "e:1", "kind": "list", "n": 7, "elem": 6, "type": 14},
+                    {"id": 3, "db": 1, "key": "e:2", "kind": "hash", "n": 6, "elem": 12, "type": 4},
+                    {"id": 4, "db": 0, "key": "e:3", "kind": "string", "n": 1, "elem": 6, "type": -1}]
+            cases.append({"id": 22000 + j, "cfg": cfg, "pre": [], "entries": ents})
+        # a slow target: 70 keys at 40 ms per RESTORE over 2 connections - the run spans the tool's one-second progress tick after the
+        # whole file has been read; "done" means done (every key there, a failure on the last key still reported)
+        for j, (mode, fk) in enumerate([("sync", ""), ("sync", "s:69"), ("restore", "")]):
+            cfg = {"mode": mode, "parallel": 2, "tdb": -1, "key_exists": "none", "sched": "free", "big_threshold": 0,
+                   "target": {"version": "5.0.7", "delay_ms": 40, "fault_key": fk, "fault_text": texts[1]}}
+            ents = [{"id": n + 1, "db": n % 3, "key": "s:%d" % n, "kind": "string", "n": 1, "elem": 6, "type": -1} for n in range(70)]
+            cases.append({"id": 23000 + j, "cfg": cfg, "pre": [], "entries": ents})
         rows = run_cases(sc, PID, verdict, cases, seed, "model-sequences", stats)
         # the as-built chunk race on the real code: chunked hash + rewrite + >= 2 workers, one connection starved
         race = []
